@@ -23,6 +23,29 @@ int pv_s_ok;
 
 unsigned pv_proc_calls;
 
+/* Choice tape (two-run harnesses, -DPV_TAPE): the oracle's nondeterministic choices are drawn from
+ * arrays the harness fills once with symbolic values and rewinds (pv_tape_i = 0) between the two
+ * runs that are compared, so both runs see the same oracle. */
+#ifdef PV_TAPE
+#define PV_TAPE_N 8
+unsigned pv_tape_i;
+int pv_tape[PV_TAPE_N];
+static int pv_draw(void)
+{
+	__CPROVER_assert(pv_tape_i < PV_TAPE_N, "harness: oracle choice tape long enough");
+	return pv_tape[pv_tape_i++];
+}
+#define PV_BOOL() (pv_draw() & 1)
+#define PV_INT() pv_draw()
+#define PV_UINT() ((unsigned)pv_draw())
+#define PV_UCHAR() ((unsigned char)pv_draw())
+#else
+#define PV_BOOL() nondet_bool()
+#define PV_INT() nondet_int()
+#define PV_UINT() nondet_uint()
+#define PV_UCHAR() nondet_uchar()
+#endif
+
 /* Both real providers report failure through the return value and/or jwt->error; a failing
  * oracle does an arbitrary non-empty combination of the two, a succeeding one neither. */
 static int pv_verify_sha_pem(jwt_t *jwt, const char *head, unsigned int head_len,
@@ -39,12 +62,12 @@ static int pv_verify_sha_pem(jwt_t *jwt, const char *head, unsigned int head_len
 	for (i = 0; i < PV_SIGMAX; i++)
 		pv_v_sig[i] = (i < sig_len) ? sig[i] : 0;
 
-	if (nondet_bool()) {
+	if (PV_BOOL()) {
 		pv_v_said_valid = 1;
 		return 0;
 	} else {
-		int r = nondet_int();
-		_Bool e = nondet_bool();
+		int r = PV_INT();
+		int e = PV_BOOL();
 		__CPROVER_assume(r != 0 || e);
 		pv_v_said_valid = 0;
 		if (e)
@@ -65,13 +88,13 @@ static int pv_sign_common(jwt_t *jwt, char **out, unsigned int *len, const char 
 	pv_s_len = str_len;
 	pv_s_ok = 0;
 
-	if (nondet_bool()) {          /* provider failure */
+	if (PV_BOOL()) {          /* provider failure */
 		*out = NULL;
-		if (nondet_bool())
+		if (PV_BOOL())
 			jwt_write_error(jwt, "oracle: sign failure");
 		return 1;
 	}
-	n = nondet_uint();
+	n = PV_UINT();
 	__CPROVER_assume(n >= 1 && n <= PV_MACLEN);
 	p = jwt_malloc(PV_MACLEN);
 	if (p == NULL) {
@@ -79,7 +102,7 @@ static int pv_sign_common(jwt_t *jwt, char **out, unsigned int *len, const char 
 		return 1;
 	}
 	for (i = 0; i < PV_MACLEN; i++) {
-		pv_s_out[i] = nondet_uchar();
+		pv_s_out[i] = PV_UCHAR();
 		p[i] = (char)pv_s_out[i];
 	}
 	pv_s_outlen = n;
